@@ -32,8 +32,13 @@ CONSTANTS RefIn, RefOut, SimpleMerge,
           ExecFlags,   \* subset of BOOLEAN: values of linearize(execute=...)
           LitXs,       \* lattice indices passed as fresh literal arrays (not cells)
           LinZArgs,    \* how "z" is passed to linearize (subset of ZArgs)
-          AnyMatch     \* with a tolerance, a full cache may serve ANY stored input within tolerance (the
+          AnyMatch,    \* with a tolerance, a full cache may serve ANY stored input within tolerance (the
                        \* property leaves the choice open); FALSE: the first one in scan order, as coded
+          SelfUpd,     \* the lattice variable "x" is SELF-COUPLED (input and output) and the body updates the
+                       \* array it received IN PLACE: x <- FX(x).  The array is the caller's: after a call in
+                       \* which the body ran, the caller's cell holds FX(x) (after a cache hit it is untouched)
+          KeyAfterRun  \* refuted rule (switch): the entry is filed under the input array as it is AFTER the
+                       \* body ran (no pristine copy of the self-coupled inputs taken before the run)
 
 VARIABLES entries,   \* sequence of entry records (index order of the cache)
           dHasJac,   \* discipline._has_jacobian
@@ -44,6 +49,11 @@ ivars == <<entries, dHasJac, dJac, diffLvl, buf>>
 vars  == <<avars, ivars>>
 
 NoCell == "lit"
+\* the state update of the self-coupled flavour: a map of the lattice onto itself (cyclic successor), so
+\* that feeding an output back as the next input stays on the lattice; printed for the harness discipline
+FX(i) == (i % Len(XV)) + 1
+ASSUME PrintT(<<"FX", [i \in XI |-> FX(i)]>>)
+ASSUME SelfUpd => (LinModes = {})     \* execution histories only (see c05.py)
 H(p) == IF Collide THEN <<p[1] % 2, 0>> ELSE p
 \* the hash table, printed once so that the harness can give the real caches a hash function with exactly
 \* these collisions (test double for the hash library, see c05.py)
@@ -83,10 +93,10 @@ StoreIdx(es, x) ==
 \* (the caller's array an entry was built from only matters when inputs are kept by reference)
 NewEntry(x, ref) == [in |-> x, ref |-> IF RefIn THEN ref ELSE NoCell, hasOut |-> FALSE, osrc |-> P0,
                      jl |-> 0, jsrc |-> P0]
-\* cache_outputs(x, G(x))
-WithOutputs(es, x, ref, i) ==
-    IF i # 0 THEN (IF es[i].hasOut THEN es ELSE [es EXCEPT ![i].hasOut = TRUE, ![i].osrc = x])
-    ELSE LET e == [NewEntry(x, ref) EXCEPT !.hasOut = TRUE, !.osrc = x]
+\* cache_outputs(k, G(o)): the outputs computed at o are filed under the input k (k = o: the input of the call)
+WithOutputs(es, k, o, ref, i) ==
+    IF i # 0 THEN (IF es[i].hasOut THEN es ELSE [es EXCEPT ![i].hasOut = TRUE, ![i].osrc = o])
+    ELSE LET e == [NewEntry(k, ref) EXCEPT !.hasOut = TRUE, !.osrc = o]
          IN IF Kind = "simple" THEN <<e>> ELSE Append(es, e)
 \* cache_jacobian(x, J(x) restricted to level l)
 WithJacobian(es, x, ref, i, l) ==
@@ -111,16 +121,18 @@ ExecEffect(x, ref, i) ==
        THEN [ran |-> FALSE, src |-> StoredOut(entries[i]), es |-> entries, hj |-> TRUE,
              jac |-> IF entries[i].jl > 0 THEN [src |-> entries[i].jsrc, lvl |-> entries[i].jl] ELSE NoJac,
              buf |-> buf]
-       ELSE [ran |-> TRUE, src |-> x,
-             es |-> IF Kind = "none" THEN entries ELSE WithOutputs(entries, x, ref, StoreIdx(entries, x)),
-             hj |-> FALSE, jac |-> dJac, buf |-> x]
+       ELSE LET key == IF SelfUpd /\ KeyAfterRun THEN <<FX(x[1]), x[2]>> ELSE x   \* the input AT CALL TIME
+            IN [ran |-> TRUE, src |-> x,
+                es |-> IF Kind = "none" THEN entries ELSE WithOutputs(entries, key, x, ref, StoreIdx(entries, key)),
+                hj |-> FALSE, jac |-> dJac, buf |-> x]
 
 DoExecute(x, ref) ==
     \E i \in LookupSet(x) :
     LET f == ExecEffect(x, ref, i)
         r == [NoRet EXCEPT !.op = "exec", !.x = x, !.hasOut = TRUE, !.src = f.src, !.ran = f.ran]
     IN /\ entries' = f.es /\ dHasJac' = f.hj /\ dJac' = f.jac /\ buf' = f.buf
-       /\ Observe(r) /\ UNCHANGED <<cell, diffLvl>>
+       /\ Observe(r) /\ UNCHANGED diffLvl
+       /\ cell' = IF SelfUpd /\ f.ran /\ ref # NoCell THEN [cell EXCEPT ![ref] = FX(cell[ref])] ELSE cell
 
 \* ---- Discipline.linearize(x, compute_all_jacobians = (req = 3), execute = ex)
 DoLinearize(x, ref, req, ex) ==
@@ -168,7 +180,7 @@ Init == /\ cell = [c \in Cells |-> IF c = "c1" THEN 1 ELSE 2]
         /\ HInit
         /\ entries = <<>> /\ dHasJac = FALSE /\ dJac = NoJac /\ diffLvl = 0 /\ buf = P0
 Next == \/ \E c \in Cells, za \in ZArgs : Execute(c, za)
-        \/ \E xi \in LitXs : ExecuteLit(xi) \/ LinearizeLit(xi)
+        \/ \E xi \in LitXs : ExecuteLit(xi) \/ (LinModes # {} /\ LinearizeLit(xi))
         \/ \E c \in Cells, za \in LinZArgs, m \in LinModes, ex \in ExecFlags : Linearize(c, za, m, ex)
         \/ \E c \in Cells, v \in XI : MutateCell(c, v)
         \/ SetDiff \/ ClearCache \/ SetCache \/ Reopen
